@@ -21,6 +21,25 @@ pub enum Case {
     Write { ranges: Vec<(i64, i64)>, n: u32, seed: u64 },
     /// writer direction over a random program
     Prog(Program),
+    /// writer direction: a very wide prototype of `records` extension records narrower than a byte
+    /// (width `width`, or 1..=7 pseudo-randomly when 0) and enough points for `packets` data packets
+    Wide { records: u16, width: u8, packets: u8, seed: u64 },
+}
+
+fn wide_program(records: u16, width: u8, packets: u8, seed: u64) -> Program {
+    let mut proto: Vec<Rec> = ["cartesianX", "cartesianY", "cartesianZ"].iter().map(|n| Rec { prefix: None, name: n.to_string(), ty: RType::Int { min: 0, max: 1023 } }).collect();
+    for k in 0..records as u64 {
+        let w = if width == 0 { 1 + (mix(seed, k) % 7) as u32 } else { (width as u32).clamp(1, 7) };
+        let min = (mix(seed ^ 99, k) % 21) as i64 - 10;
+        proto.push(Rec { prefix: Some("wd".into()), name: format!("f{k}"), ty: RType::Int { min, max: min + ((1i64 << w) - 1) } });
+    }
+    let cap = gen::cap_hint(&proto).unwrap_or(100).max(1);
+    let n = (cap * packets.max(1) as usize + 3).min(3_000_000 / proto.len()) as u32;
+    Program {
+        guid: "{c12wide}".into(),
+        ops: vec![Op::Ext { prefix: "wd".into(), url: "urn:verif:wide".into() }, Op::Cloud(CloudSpec { guid: "{c}".into(), proto, n, seed, nan_ok: true, meta: CloudMeta::default(), finalize: true, clear_limits: 0 })],
+        end: End::Finalize,
+    }
 }
 
 fn range_variants(w: u32) -> Vec<(i64, i64)> {
@@ -155,7 +174,8 @@ impl Check for C12 {
          i64::MAX-range, -1) x value sets (boundary, alternating bit patterns, pseudo random) for 9 (thorough 17) values so that every start phase \
          within a byte occurs x every cut position of the byte stream into two data packets; files are encoded by e57ref's bit-by-bit codec and \
          must decode through pointcloud_raw to the encoded values. Writer direction: prototypes 3 x f64 + integer records of every width (and a \
-         companion width) with cap-1, cap, cap+1, 2cap+1 points, plus random programs: per record the written stream must have exactly \
+         companion width) with cap-1, cap, cap+1, 2cap+1 points, very wide prototypes (600 - 1000 enumerated, 300 - 1200 generated extension \
+         records narrower than a byte, 5 - 9 packets), plus random programs (incl. compact prototypes over up to 8 packets): per record the written stream must have exactly \
          ceil(N*w/8) bytes and bit i*w+b must equal bit b of value_i - min (LSB first). Non-trivial: width not a multiple of 8, or 0, or 64, \
          or negative minimum, or a partial byte carried over a packet boundary."
             .into()
@@ -199,6 +219,10 @@ impl Check for C12 {
                 }
             }
         }
+        // very wide prototypes: the partial bytes of hundreds of streams are carried from packet to packet
+        for (records, width) in [(600u16, 1u8), (800, 1), (1000, 0), (700, 3)] {
+            out.push(Case::Wide { records, width, packets: if t == Tier::Quick { 5 } else { 9 }, seed: records as u64 });
+        }
         out
     }
     fn describe_fixed(t: Tier) -> Option<String> {
@@ -209,6 +233,9 @@ impl Check for C12 {
         ))
     }
     fn gen(s: &mut Src, _t: Tier) -> Case {
+        if s.chance(1, 250) {
+            return Case::Wide { records: 300 + s.below(900) as u16, width: s.below(8) as u8, packets: 2 + s.below(6) as u8, seed: s.u64() };
+        }
         if s.chance(1, 3) {
             let w = s.below(65) as u32;
             let (min, max) = gen::int_range_of_width(s, w);
@@ -217,7 +244,7 @@ impl Check for C12 {
             let len = (n * w as usize + 7) / 8;
             Case::Read { min, max, scaled: s.flag(), vals, cut: s.below(len as u64 + 1) as u16, second_cut: s.below(200) as u16 }
         } else {
-            let o = GenOpts { density: 0, max_ops: 2, images: false, blobs: true, ..GenOpts::default() };
+            let o = GenOpts { density: 0, max_ops: 2, images: false, blobs: true, compact_chance: (1, 25), ..GenOpts::default() };
             Case::Prog(prog::valid_program(s, &o))
         }
     }
@@ -297,6 +324,10 @@ impl Check for C12 {
             Case::Prog(p) => {
                 crate::c01::proto_labels(p, &mut v);
                 run_program(p, &mut v);
+            }
+            Case::Wide { records, width, packets, seed } => {
+                v.nt("hundreds_of_records_narrower_than_a_byte");
+                run_program(&wide_program(*records, *width, *packets, *seed), &mut v);
             }
         }
         v
